@@ -35,7 +35,7 @@ VARS = ["a", "b", "c"]
 OPS = [("+", "BAdd"), ("-", "BSub"), ("*", "BMul"), ("/", "BDiv")]
 
 
-def gen_expr(rng, lo, hi, depth, need_var=True):
+def gen_expr(rng, lo, hi, depth, need_var=True, topop=None):
     """(go text, coq term, is literal).  Literals are non-negative (no unary minus), in the kind's range and <= MaxInt64;
     never an operator on two literals; never a literal zero divisor (a Go compile error)."""
     if depth == 0 or (not need_var and rng.random() < 0.3):
@@ -45,7 +45,7 @@ def gen_expr(rng, lo, hi, depth, need_var=True):
         top = min(hi, 2 ** 63 - 1)
         z = rng.choice([1, 2, 3, 7, top, top - 1, top // 2, rng.randint(1, min(top, 1000))])
         return str(z), "(EConst %d)" % z, True
-    op, cop = rng.choice(OPS)
+    op, cop = topop or rng.choice(OPS)
     l = gen_expr(rng, lo, hi, depth - 1, need_var=False)
     r = gen_expr(rng, lo, hi, depth - 1, need_var=l[2])
     if l[2] and r[2]:
@@ -53,11 +53,11 @@ def gen_expr(rng, lo, hi, depth, need_var=True):
     return "(%s %s %s)" % (l[0], op, r[0]), "(EBin %s %s %s)" % (cop, l[1], r[1]), False
 
 
-def gen_core(rng, idx):
-    gk, ck, lo, hi = rng.choice(KINDS)
+def gen_core(rng, idx, kind=None, topop=None):
+    gk, ck, lo, hi = kind or rng.choice(KINDS)
     top = min(hi, 2 ** 63 - 1)        # an initializer above MaxInt64 is a recorded finding (uint64-literal-above-maxint64)
     vals = [rng.choice([lo, lo + 1, top, top - 1, 0, 1, 2, 3, 7, rng.randint(lo, top)]) for _ in VARS]
-    go, coq, _ = gen_expr(rng, lo, hi, rng.randint(1, 3))
+    go, coq, _ = gen_expr(rng, lo, hi, rng.randint(1, 3) if topop is None else rng.randint(1, 2), topop=topop)
     decl = "\n".join("\tvar %s %s = %s" % (v, gk, ("%d" % z if z >= 0 else "-%d" % -z)) for v, z in zip(VARS, vals))
     # every variable is used; the minimum of a signed kind is written as an expression Go and Ego both accept
     decl = decl.replace("= -%d" % -lo, "= -%d - 1" % (-lo - 1)) if lo < 0 else decl
@@ -80,7 +80,7 @@ def outcome(out, abort):
 
 def run(ck):
     quick = ck.tier == "quick"
-    ck.cov["rule"] = ("core: one random integer kind, three variables with boundary/random values, an expression tree of depth 1-3 "
+    ck.cov["rule"] = ("core: every integer kind x every operator at the top (36 programs) + random ones; three variables with boundary/random values, an expression tree of depth 1-3 "
                       "over + - * / (division by a variable that may be zero) printed once; wide: lib/gosub_wide.py clean feature "
                       "set. distinct_nontrivial = distinct core expressions whose Go run printed a value or panicked + wide programs "
                       "that printed at least one line")
@@ -93,11 +93,13 @@ def run(ck):
     if not okb:
         ck.violation("ego-build", "the ego binary does not build:\n" + ego[-1500:], replay={"log": ego[-3000:]}, found_input=False)
         return
-    ncore = 40 if quick else 400
+    ncore = 12 if quick else 400
     nwide = 16 if quick else 200
     if getattr(ck, "coq_broken", None):
         ncore, nwide = ncore * 3, nwide * 3
-    core = [gen_core(ck.rng, "c%d" % i) for i in range(ncore)]
+    # every kind x every operator at the top of an expression, then random ones
+    core = [gen_core(ck.rng, "k%d" % (4 * i + j), kind=KINDS[i], topop=OPS[j]) for i in range(len(KINDS)) for j in range(len(OPS))]
+    core += [gen_core(ck.rng, "c%d" % i) for i in range(ncore)]
     # regression corpus first: the refuted cell (confirmed as a known finding) is NOT in the clean stream
     wide = [gw.gen_program(ck.rng, "w%d" % i) for i in range(nwide)]
     cc = gw.from_template("func prog@() {\n\tvar x int8 = 127\n\ty := x + (1 + 2)\n\tfmt.Println(y)\n}\n", "kcc")
